@@ -10,6 +10,15 @@ func (c *Conversation) generateNewDHKeyPair() error {
 }
 
 func (c *Conversation) akeHasFinished() error {
+	// The new session needs a fresh D-H key pair. Make it first: if the
+	// randomness source fails now nothing has been changed yet and the key
+	// exchange is given up. Entering the session without it would leave a
+	// conversation that calls itself encrypted but cannot send anything.
+	if err := c.ake.keys.generateNewDHKeyPair(c.rand()); err != nil {
+		c.ake.wipe(true)
+		return err
+	}
+
 	// The key pairs of a session that is being replaced are all retired now:
 	// their MAC keys still have to be revealed, in the new session
 	toReveal := c.keys.macKeysToRevealWhenReplaced()
@@ -32,7 +41,7 @@ func (c *Conversation) akeHasFinished() error {
 		c.messageEvent(MessageEventMessageReflected)
 	}
 
-	return c.generateNewDHKeyPair()
+	return nil
 }
 
 func (c *Conversation) processAKE(msgType byte, msg []byte) (toSend []messageWithHeader, err error) {
